@@ -167,9 +167,9 @@ func (g *gen) numExpr(d int) ex {
 				return ex{"2.5", pPrimary}
 			case 2:
 				// fractions, exponents, and whole values on both sides of 1e6 and 1e21
-			// (where shortest formatting switches to exponent notation)
-			return ex{vlib.Pick(g.rng, []string{"1.5e3", "0.25", "1e-7", "3.14159", "-0.5", "1e100", "999999.0",
-				"1000000.0", "2.5e6", "1e21", "-3e7", "123456789.0", "1234567.5", "0.00001", "1E6", "5e-324", "1.7976931348623157e308"}), pPrimary}
+				// (where shortest formatting switches to exponent notation)
+				return ex{vlib.Pick(g.rng, []string{"1.5e3", "0.25", "1e-7", "3.14159", "-0.5", "1e100", "999999.0",
+					"1000000.0", "2.5e6", "1e21", "-3e7", "123456789.0", "1234567.5", "0.00001", "1E6", "5e-324", "1.7976931348623157e308"}), pPrimary}
 			case 3:
 				return ex{"float($n)", pPrimary}
 			default:
@@ -264,7 +264,10 @@ func (g *gen) stmts(b *strings.Builder, ind string, d int, inDef bool) {
 		case k == 6:
 			g.emit(b, ind, "g[$s]++")
 		case k == 7:
-			dur := vlib.Pick(g.rng, []string{"", " after 1h", " after 30m", " after 1h30m", " after 100ms", " after 0.5s", " after 90s"})
+			dur := vlib.Pick(g.rng, []string{"", " after 1h", " after 30m", " after 1h30m", " after 100ms", " after 0.5s", " after 90s",
+				// durations whose canonical spelling is compound with a fraction in a
+				// later unit (1m30.5s, 1m1.001s, 1h0m1.8s, 2h45m30.5s), or a long one
+				" after 90.5s", " after 61001ms", " after 1.0005h", " after 9930.5s", " after 100000h", " after 1.5ms"})
 			if g.flags.smallDur && g.rng.Chance(60) {
 				dur = vlib.Pick(g.rng, []string{" after 0.000001s", " after 0.0000015s", " after 1.0000005s"})
 				g.feats["sub-millisecond-expiry"] = true
